@@ -187,6 +187,7 @@ Record ctx_obs := {
   x_built : bool;                 (* construction succeeded *)
   x_setup : bool;                 (* setup succeeded (meaningful if built) *)
   x_log : list Z;                 (* set-up log (if setup succeeded) *)
+  x_junk : bool;                  (* the last batch handed to add_components held an object that is no component *)
   x_partial : option (bool * list Z);   (* add_components on an existing context raised, setup was called all the same:
                                            did it succeed, and its set-up log *)
   x_cops : list (list cop)        (* what a probe read / tried during its setup (if setup succeeded): each list is run on
@@ -199,10 +200,56 @@ Fixpoint wf_itemb (i : item) : bool :=
   | Group ms => (fix all (l : list item) : bool := match l with [] => true | x :: r => wf_itemb x && all r end) ms
   end.
 
+(* the components found registered after a refused batch, with their defaults (a name the forest uses more than once
+   is ambiguous: taken without defaults; the harness does not read the key paths such a component defaults) *)
+Definition registered_entries (all : list centry) (clog : list Z) : list centry :=
+  map (fun n => (n, if Nat.eqb (count_z n (map fst all)) 1
+                    then match zassoc n all with Some d => d | None => [] end else [])) clog.
+
+(* add_components raised on an existing context and setup was called all the same.  Whatever the flattening order:
+   what stayed registered is set up - components of the forest only, each once, managers first, parents first - and it is
+   CONSISTENT: registering exactly these components (in the order observed) is accepted, i.e. no component whose name or
+   defaults were refused is among them, and the configuration read during that setup is the one these components' defaults
+   produce (on the key paths the harness reads: those no refused component may have touched). *)
+Definition partial_ok (layers : list Z) (l_user l_mgr l_comp l_spec l_over : Z) (mgrs : list centry) (c : ctx_obs)
+  (ok : bool) (log : list Z) : bool :=
+  match build_cfg layers l_user l_spec l_over (x_user c) (x_spec c) (x_over c) with
+  | COk t2 =>
+      match add_flat layers l_mgr t2 [] mgrs with
+      | Ok (t3, mnames) =>
+          let clog := skipn (length mnames) log in
+          let all := pre_all (x_forest c) in
+          let all_names := map fst all in
+          if ok
+          then same_multiset (firstn (length mnames) log) mnames &&
+               forallb (fun n => zmem n all_names) clog && znodupb log &&
+               forallb (fun e => negb (Nat.eqb (count_z (snd e) all_names) 1)  (* ambiguous name *)
+                                 || negb (zmem (snd e) clog) || before (fst e) (snd e) clog)
+                       (edges_all (x_forest c)) &&
+               match add_flat layers l_comp t3 [] (registered_entries all clog) with
+               | Ok (tR, _) => forallb (run_cops layers (freeze tR)) (x_cops c)
+               | _ => false
+               end
+          else (* setup refused: only a component named like a manager can be the reason *)
+               existsb (fun n => zmem n mnames) all_names
+      | _ => false
+      end
+  | CErr _ => false
+  end.
+
 Definition check_ctx (layers : list Z) (l_user l_mgr l_comp l_spec l_over : Z) (mgrs : list centry) (c : ctx_obs) : bool :=
   forallb wf_itemb (x_forest c) && wf_datab (DDict (x_user c)) && wf_datab (DDict (x_spec c)) && wf_datab (DDict (x_over c)) &&
+  let partial := match x_partial c with
+                 | None => true
+                 | Some (ok, log) => partial_ok layers l_user l_mgr l_comp l_spec l_over mgrs c ok log
+                 end in
   match build_context layers l_user l_mgr l_comp l_spec l_over mgrs (x_user c) (x_spec c) (x_over c) (x_forest c) with
   | Ok ctx =>
+      if x_junk c
+      then (* the last batch held an object that is no component: _flatten raised before anything of it was registered;
+              [x_forest] is what the earlier batches held *)
+           negb (x_built c) && partial
+      else
       x_built c &&
       match setup_context ctx with
       | Ok (t, order) =>
@@ -210,34 +257,6 @@ Definition check_ctx (layers : list Z) (l_user l_mgr l_comp l_spec l_over : Z) (
           same_multiset (x_log c) order && forallb (run_cops layers t) (x_cops c)
       | _ => negb (x_setup c)
       end
-  | Rejected _ =>
-      negb (x_built c) &&
-      match x_partial c with
-      | None => true
-      | Some (ok, log) =>
-          (* the batch was refused by the component stage; what had been registered before is set up *)
-          match build_cfg layers l_user l_spec l_over (x_user c) (x_spec c) (x_over c) with
-          | COk t2 =>
-              match add_flat layers l_mgr t2 [] mgrs with
-              | Ok (t3, mnames) =>
-                  let reg := add_flat_prefix layers l_comp t3 [] (pre_all (x_forest c)) in
-                  let clog := skipn (length mnames) log in
-                  let all_names := map fst (pre_all (x_forest c)) in
-                  if ok
-                  then (* whatever stayed registered (today: the pre-order prefix before the offending component,
-                          [add_flat_prefix]; another valid flattening order registers another set) is set up: components
-                          of the forest only, each once, managers first, parents first *)
-                       same_multiset (firstn (length mnames) log) mnames &&
-                       forallb (fun n => zmem n all_names) clog && znodupb log &&
-                       forallb (fun e => negb (Nat.eqb (count_z (snd e) all_names) 1)  (* ambiguous name *)
-                                         || negb (zmem (snd e) clog) || before (fst e) (snd e) clog)
-                               (edges_all (x_forest c))
-                  else (* setup refused: only a component named like a manager can be the reason *)
-                       existsb (fun n => zmem n mnames) all_names || negb (znodupb (mnames ++ reg))
-              | _ => false
-              end
-          | CErr _ => false
-          end
-      end
+  | Rejected _ => negb (x_built c) && partial
   | OutOfFuel => false
   end.
